@@ -60,6 +60,17 @@ CLAIMED = {
    "Seeded search over corrupted images x reader modes x read personalities; oracles: no panic, termination (step caps + confirmed wall-clock watchdog), TotalAlloc proxy bound, and exact detection of goroutines left behind when the walk returns (synctest bubble).",
    "Memory is bounded by a coarse measured proxy; CPU-only hangs rely on the watchdog; the walker covers the reading APIs named in the property (NewReader, SequentialScan/MakeReader, Get, DecodeStream, pagetree, page.Decode, extract.Font, GlyphNameMapping, reader.ProcessPage, outline, name tree).",
    "DESIGN.md section 4 C05"),
+
+ "C04": ("exploration",
+   "deterministic simulation of revision histories: an independent serialiser appends revisions (define/redefine/free/re-use, table / xref stream / hybrid sections, object streams, drawn syntactic renderings, /Length variants) to a simulated disk; after every appended revision the real Reader is compared with a 30-line reference model",
+   "Seeded search over histories x renderings; the expected answer comes from the reference model (apply revisions oldest to newest), never from the library; the image is checked after each appended revision, not only at the end of the history.",
+   "Trusts revwriter to emit only specification-conforming files (free list, /Size, /Prev, self-describing xref streams; hybrid files only in the uncontroversial rendering) and the quantifier's exclusions for the /Length clause (ambiguous extents are skipped and counted by a probe). The small-history space is sampled by seeded search, not enumerated.",
+   "DESIGN.md section 4 C04"),
+ "C11": ("exploration",
+   "deterministic simulation with two disks: seeded source graphs serialised by the independent serialiser (or by the Writer when encrypted), copy programs against a real Writer on a second simulated sink (copies interleaved with target writes and issued while a target stream is open), lock-step isomorphism walk after reopening the target",
+   "Seeded search over source graphs x serialisations x target configurations x copy programs; the oracle builds the relation source-object <-> target-object and requires a bijection, equal scalars, array lengths, dictionary key sets, preserved empty containers and nulls, equal decoded stream data, equivalent /Filter and /DecodeParms with nested references translated, and stable results for repeated CopyReference.",
+   "References are identified with the object at the end of their reference-to-reference chain; chains that pass through a redirected object are not judged (unspecified); dictionary entries with null values count as absent.",
+   "DESIGN.md section 4 C11"),
 }
 
 PENDING = {}
@@ -107,7 +118,7 @@ def main():
     print("claimed:", sorted(CLAIMED), "n/a:", [x["property_id"] for x in na])
 
 PENDING = {p: "not claimed yet: the simulation harness for this property is still under construction (see DESIGN.md section 4); it is applicable and will be claimed once its check is sound on the unchanged tree" for p in
-           ["C04", "C11", "C15", "C16"]}
+           ["C15", "C16"]}
 
 if __name__ == "__main__":
     main()
